@@ -92,7 +92,10 @@ def accessOk (s : Sim) (v : Vehicle) : Bool :=
     | none => true
   | .chargingBase b _ =>
     match s.base? b with
-    | some base => base.members.grants v.members
+    | some base => base.members.grants v.members &&
+        (match base.station.bind s.station? with
+         | some st => st.members.grants v.members
+         | none => true)
     | none => true
   | .dispatchTrip rid _ =>
     match s.request? rid with
@@ -102,15 +105,6 @@ def accessOk (s : Sim) (v : Vehicle) : Bool :=
   | _ => true
 
 def inv10 (s : Sim) : Bool := s.vehicles.all (accessOk s)
-
-/-- the station side of `ChargingBase` (F18): the plug's owner must grant access too -/
-def accessBaseStationOk (s : Sim) (v : Vehicle) : Bool :=
-  match v.act with
-  | .chargingBase b _ =>
-    match (s.base? b).bind (·.station) |>.bind s.station? with
-    | some st => st.members.grants v.members
-    | none => true
-  | _ => true
 
 /-! ### C17 — a recorded dispatched vehicle is on its way -/
 
